@@ -101,11 +101,25 @@ fn media_history(prop: &str, i: u64, rng: &mut Rng, out: &mut Outcome, dir: &std
             2 => format!("{}.x", "f".repeat(200)),
             _ => format!("f{fi}-{}.dat", rng.next() % 1000),
         };
-        let up = with_mdk!(w.clients[sender].mdk, x => x.media_manager(gid.clone()).encrypt_for_upload(&data, mime, &fname));
+        // what the application passes in need not be the canonical spelling of the MIME type
+        let spelled: String = match rng.below(8) {
+            0 => mime.to_uppercase(),
+            1 => format!("{mime}; charset=utf-8"),
+            2 => format!(" {mime} "),
+            3 => {
+                let (a, b) = mime.split_once('/').unwrap_or((mime, ""));
+                format!("{}{}/{}", &a[..1].to_uppercase(), &a[1..], b)
+            }
+            _ => mime.to_string(),
+        };
+        if spelled != mime {
+            out.count("uploads_with_non_canonical_mime_spelling");
+        }
+        let up = with_mdk!(w.clients[sender].mdk, x => x.media_manager(gid.clone()).encrypt_for_upload(&data, &spelled, &fname));
         let up = match up {
             Ok(u) => u,
             Err(e) => {
-                out.note("upload_refusals", format!("{mime}: {}", crate::util::first_words(&e.to_string(), 4)));
+                out.note("upload_refusals", format!("{spelled:?}: {}", crate::util::first_words(&e.to_string(), 4)));
                 continue;
             }
         };
@@ -403,6 +417,7 @@ pub fn run(ctx: &Ctx) -> i32 {
         Floor { what: "tamper trials", have: out.get("tamper_trials"), need: 50_000 },
         Floor { what: "receivers that processed the announcing message after later commits", have: out.get("receivers_with_late_announce"), need: 200 },
         Floor { what: "files whose content had been announced before in another epoch", have: out.get("same_content_announced_again"), need: 40 },
+        Floor { what: "uploads whose MIME type was passed in a non-canonical spelling", have: out.get("uploads_with_non_canonical_mime_spelling"), need: 150 },
         Floor { what: "MIME families", have: out.sets.get("mime_families").map(|s| s.len()).unwrap_or(0) as u64, need: 8 },
         Floor { what: "group image round trips (v2)", have: out.get("group_image_roundtrips"), need: 60 },
     ];
